@@ -7,7 +7,7 @@
 
   `FieldHyp C` — about the field prime `p` and the opaque square-root exponentiation:
      range facts, `SqrtComplete` (if `c` is a square, `sqrtExp c` is a root), `SqrtUnique`
-     (`y² = z²` only for `z = ±y`; follows from `p` prime), and the two arithmetic facts that make
+     (`y² = z²` only for `z = ±y`; proved from `p` prime in `sqrt_unique_of_prime`, see `FieldHyp.ofPrime`), and the two arithmetic facts that make
      "a zero coordinate" synonymous with "not a finite point": 7 is not a square and −7 is not a
      cube modulo `p` (true for secp256k1: the group has prime order, hence no point of order 2
      (`y = 0`) or 3 (`x = 0`)).
@@ -18,6 +18,7 @@
      modulo `n`.
 -/
 import Mathlib.Data.ZMod.Basic
+import Mathlib.Algebra.Field.ZMod
 import Mathlib.Tactic.Ring
 import Mathlib.Tactic.LinearCombination
 import BtcVerif.Model.ECC
@@ -89,6 +90,50 @@ theorem neg_sq_mod (p y : Nat) (h : y ≤ p) : (p - y) * (p - y) % p = y * y % p
   have h1 : (d * d + (y + d) * (2 * y)) % (y + d) = d * d % (y + d) := Nat.add_mul_mod_self_left _ _ _
   have h2 : (y * y + (y + d) * (y + d)) % (y + d) = y * y % (y + d) := Nat.add_mul_mod_self_left _ _ _
   rw [← h1, this, h2]
+
+/-- SqrtUnique is not an extra assumption: it holds for every prime modulus -/
+theorem sqrt_unique_of_prime {p : ℕ} (hp : p.Prime) (y z : ℕ) (hy : y < p) (hz : z < p)
+    (h : y * y % p = z * z % p) : z = y ∨ z + y = p := by
+  have : Fact p.Prime := ⟨hp⟩
+  have hc : ((y : ZMod p)) * y = (z : ZMod p) * z := by
+    have := (ZMod.natCast_eq_natCast_iff' (y * y) (z * z) p).mpr h
+    simpa using this
+  rcases mul_self_eq_mul_self_iff.mp hc with h1 | h1
+  · left
+    have := (ZMod.natCast_eq_natCast_iff' y z p).mp h1
+    rw [Nat.mod_eq_of_lt hy, Nat.mod_eq_of_lt hz] at this
+    exact this.symm
+  · have h2 : ((z + y : ℕ) : ZMod p) = 0 := by
+      push_cast; rw [h1]; ring
+    have h3 := (ZMod.natCast_eq_zero_iff (z + y) p).mp h2
+    obtain ⟨k, hk⟩ := h3
+    have : k = 0 ∨ k = 1 := by
+      rcases k with _ | _ | k
+      · left; rfl
+      · right; rfl
+      · exfalso
+        have : p * (k + 1 + 1) = p * k + p + p := by ring
+        omega
+    rcases this with rfl | rfl
+    · left; omega
+    · right; omega
+
+/-- `FieldHyp` from primality: `SqrtUnique` and oddness are consequences of `p` being a prime > 7 -/
+theorem FieldHyp.ofPrime {C : CurveOps} (hp : C.p.Prime) (h7 : 7 < C.p) (hlt : C.p < 2 ^ 256)
+    (h1 : ∀ c, C.sqrtExp c < C.p)
+    (h2 : ∀ c y, y < C.p → y * y % C.p = c → C.sqrtExp c * C.sqrtExp c % C.p = c)
+    (h3 : ∀ y, y < C.p → y * y % C.p ≠ 7) (h4 : ∀ x, x < C.p → (x * x * x + 7) % C.p ≠ 0) : FieldHyp C where
+  p_gt := h7
+  p_odd := by
+    rcases hp.eq_two_or_odd with h | h
+    · omega
+    · exact h
+  p_lt := hlt
+  sqrtExp_lt := h1
+  sqrt_complete := h2
+  sqrt_unique := fun y z hy hz h => sqrt_unique_of_prime hp y z hy hz h
+  no_x_zero := h3
+  no_y_zero := h4
 
 namespace CurveAbs
 variable {C : CurveOps} (H : CurveAbs C)
